@@ -31,7 +31,7 @@ class SignallingCondition(threading.Condition):
             self.waiting.clear()
 
 
-def run_waiter(fn, cond, deliver, join_timeout=20.0, enter_timeout=10.0, grace=2.5):
+def run_waiter(fn, cond, deliver, join_timeout=60.0, enter_timeout=30.0, grace=15.0):
     """Start fn() in a thread, wait until it blocks in cond.wait(), call deliver(), join.
 
     Returns (status, value): status in 'returned', 'raised', 'never-waited', 'hung', 'not-woken'."""
@@ -71,7 +71,7 @@ def run_waiter(fn, cond, deliver, join_timeout=20.0, enter_timeout=10.0, grace=2
     return box["status"], box["value"]
 
 
-def run_waiters(fns, cond, deliver, join_timeout=20.0, enter_timeout=10.0, grace=2.5):
+def run_waiters(fns, cond, deliver, join_timeout=60.0, enter_timeout=30.0, grace=15.0):
     """Several threads block in cond.wait(); deliver once all are parked; every one must come back.
 
     Returns a list of (status, value) in the order of ``fns``."""
